@@ -168,6 +168,8 @@ pub enum Rel {
   ThresholdBit { bit: u8 },
   /// appended zero byte(s)
   ZeroPad { which: u8, n: u8 },
+  /// exactly one byte of the epoch (which=0) or measurement (which=1) changed
+  ByteChange { which: u8, at: u16, delta: u8 },
   Unrelated { other: Triple },
 }
 
@@ -188,6 +190,7 @@ fn diff_strat(_t: Tier) -> BoxedStrategy<DiffCase> {
     2 => (0u8..2, any::<u16>()).prop_map(|(which, cut)| Rel::Prefix { which, cut }),
     3 => (0u8..32).prop_map(|bit| Rel::ThresholdBit { bit }),
     1 => (0u8..2, 1u8..4).prop_map(|(which, n)| Rel::ZeroPad { which, n }),
+    3 => (0u8..2, any::<u16>(), 1u8..=255).prop_map(|(which, at, delta)| Rel::ByteChange { which, at, delta }),
     2 => triple(200).prop_map(|other| Rel::Unrelated { other }),
   ];
   (triple(300), rel).prop_map(|(tr, rel)| DiffCase { tr, rel }).boxed()
@@ -256,6 +259,18 @@ fn related(c: &DiffCase) -> (Triple, Triple, &'static str) {
         b.e.0.extend(vec![0u8; *n as usize]);
       }
       (a, b, "zero-padded")
+    }
+    Rel::ByteChange { which, at, delta } => {
+      let mut a2 = a.clone();
+      let f = if *which == 0 { &mut a2.e } else { &mut a2.m };
+      if f.0.is_empty() {
+        f.0.push(0x80);
+      }
+      let mut b = a2.clone();
+      let g = if *which == 0 { &mut b.e } else { &mut b.m };
+      let i = idx(*at, g.0.len());
+      g.0[i] = g.0[i].wrapping_add((*delta).max(1));
+      (a2, b, if *which == 0 { "epoch-one-byte" } else { "measurement-one-byte" })
     }
     Rel::Unrelated { other } => (a, other.clone(), "unrelated"),
   }
